@@ -151,14 +151,23 @@ class Ctx:
             return self._bin[key]
         self._bin = self._bin or {}
         out = os.path.join(self.scratch, key)
+        hdir = HARNESS
+        if REPO != "/repo":
+            # checks against another copy of the library (seed testing): build from a scratch copy of the
+            # harness whose module replacement points there
+            hdir = os.path.join(self.scratch, "harness-src")
+            if not os.path.exists(hdir):
+                shutil.copytree(HARNESS, hdir)
+                gm = open(os.path.join(hdir, "go.mod")).read().replace("=> /repo", "=> " + REPO)
+                open(os.path.join(hdir, "go.mod"), "w").write(gm)
         sumsrc = os.path.join(REPO, "go.sum")
         if os.path.exists(sumsrc):
-            shutil.copyfile(sumsrc, os.path.join(HARNESS, "go.sum"))
+            shutil.copyfile(sumsrc, os.path.join(hdir, "go.sum"))
         cmd = ["go", "build", "-tags", "verif", "-o", out]
         if race:
             cmd.append("-race")
         cmd.append("./cmd/vh")
-        p = subprocess.run(cmd, cwd=HARNESS, env=goenv(), stdout=subprocess.PIPE,
+        p = subprocess.run(cmd, cwd=hdir, env=goenv(), stdout=subprocess.PIPE,
                            stderr=subprocess.STDOUT, text=True)
         if p.returncode != 0:
             raise Infra("harness build failed:\n" + p.stdout[-4000:])
@@ -319,14 +328,16 @@ class Report:
             "wall_s": round(time.time() - ctx.t0, 2),
             "violations": len(real),
         }
-        os.makedirs(os.path.join(VERIF, "evidence"), exist_ok=True)
-        with open(os.path.join(VERIF, "evidence", ctx.prop + ".json"), "w") as f:
+        evdir = os.environ.get("VERIF_EVIDENCE_DIR") or os.path.join(VERIF, "evidence")
+        os.makedirs(evdir, exist_ok=True)
+        with open(os.path.join(evdir, ctx.prop + ".json"), "w") as f:
             json.dump(ev, f, indent=1, sort_keys=True, default=str)
             f.write("\n")
         if real:
-            os.makedirs(os.path.join(VERIF, "replays"), exist_ok=True)
+            rpdir = os.environ.get("VERIF_REPLAY_DIR") or os.path.join(VERIF, "replays")
+            os.makedirs(rpdir, exist_ok=True)
             h = hashlib.sha1(json.dumps(real[0], sort_keys=True, default=str).encode()).hexdigest()[:10]
-            path = os.path.join(VERIF, "replays", "%s-%s-%s.json" % (ctx.prop, ctx.tier, h))
+            path = os.path.join(rpdir, "%s-%s-%s.json" % (ctx.prop, ctx.tier, h))
             with open(path, "w") as f:
                 json.dump({"property": ctx.prop, "tier": ctx.tier, "seed": ctx.seed,
                            "violations": real[:50]}, f, indent=1, default=str)
